@@ -2,19 +2,20 @@
 Path enumerations of `Market._add_order` (see SrcAddDefs.lean): `nf%` computes the pruned paths of the
 symbolic run of the *current* translated source, `rfl` makes the kernel re-check them.
 -/
+import PamsLemmas.EvalNf
 import PamsLemmas.SrcAddDefs
 
 namespace Pams.Src
 open Pams Pams.Py
 set_option maxRecDepth 1000000
 
-theorem addP_ftff : addPaths false true false false 0 .none false false = nf% (addPaths false true false false 0 .none false false) := by rfl
-theorem addP_ftft : addPaths false true false false 0 .none true false = nf% (addPaths false true false false 0 .none true false) := by rfl
-theorem addP_fttf : addPaths false true true false 0 .none false false = nf% (addPaths false true true false 0 .none false false) := by rfl
-theorem addP_fttt : addPaths false true true false 0 .none true false = nf% (addPaths false true true false 0 .none true false) := by rfl
-theorem addP_ffff : addPaths false false false false 0 .none false false = nf% (addPaths false false false false 0 .none false false) := by rfl
-theorem addP_ffft : addPaths false false false false 0 .none true false = nf% (addPaths false false false false 0 .none true false) := by rfl
-theorem addP_fftf : addPaths false false true false 0 .none false false = nf% (addPaths false false true false 0 .none false false) := by rfl
-theorem addP_fftt : addPaths false false true false 0 .none true false = nf% (addPaths false false true false 0 .none true false) := by rfl
+theorem addP_ftff : addPaths false true false false 0 .none false false = evalnf% (addPaths false true false false 0 .none false false) := by kernel_rfl
+theorem addP_ftft : addPaths false true false false 0 .none true false = evalnf% (addPaths false true false false 0 .none true false) := by kernel_rfl
+theorem addP_fttf : addPaths false true true false 0 .none false false = evalnf% (addPaths false true true false 0 .none false false) := by kernel_rfl
+theorem addP_fttt : addPaths false true true false 0 .none true false = evalnf% (addPaths false true true false 0 .none true false) := by kernel_rfl
+theorem addP_ffff : addPaths false false false false 0 .none false false = evalnf% (addPaths false false false false 0 .none false false) := by kernel_rfl
+theorem addP_ffft : addPaths false false false false 0 .none true false = evalnf% (addPaths false false false false 0 .none true false) := by kernel_rfl
+theorem addP_fftf : addPaths false false true false 0 .none false false = evalnf% (addPaths false false true false 0 .none false false) := by kernel_rfl
+theorem addP_fftt : addPaths false false true false 0 .none true false = evalnf% (addPaths false false true false 0 .none true false) := by kernel_rfl
 
 end Pams.Src
